@@ -378,7 +378,9 @@ func main() {
 	subcommands := [][]string{{"devices"}, {"devices", "-v", "-o", "json"}, {"devices", "-v", "-o", "yaml"}, {"vendors"}, {"classes"}, {"specs"}, {"specs", "-v"}, {"specs", "vendor1.com"}, {"dirs"}, {"validate"},
 		{"inject", "json", "json", "vendor1.com/cls=x"}, {"inject", "yaml", "", "vendor*/*=*"}, {"inject", "json", "yaml", "vendor1.com/cls=[xy]", "vendor2.org/other=x"},
 		// overlapping patterns: a device matched by several patterns is injected once
-		{"inject", "json", "json", "vendor1.com/cls=*", "vendor1.com/cls=x"}, {"inject", "yaml", "yaml", "vendor*/*=x", "vendor*/*=x", "*/*=*"}}
+		{"inject", "json", "json", "vendor1.com/cls=*", "vendor1.com/cls=x"}, {"inject", "yaml", "yaml", "vendor*/*=x", "vendor*/*=x", "*/*=*"},
+		// the whole pattern syntax of path.Match: escapes (also in a pattern without any wildcard), ranges, negated classes, '?'
+		{"inject", "json", "json", `vendor1.com/cls=\x`}, {"inject", "yaml", "json", `vendor1.com\/cls=y`, `vendor2.org/other=\x`}, {"inject", "json", "yaml", "vendor?.???/*=[x-y]"}, {"inject", "json", "json", "vendor1.com/cls=[^x]"}}
 	dirLists := [][]string{{"d0", "d1"}, {"d1", "d0"}, {"d1"}, {"d0", "missing", "d1"}, {"d0", "d1", "d0"}, {"d1/", "d0", "d1/."}}
 	var cases []Case
 	for i := 0; i < total; i += step {
